@@ -76,7 +76,8 @@ fn translate_struct(idx: &Index, reg: &Registry, t: &Target) -> R<String> {
     let module = path.rsplit_once("::").map(|x| x.0).unwrap_or("").to_string();
     let cur = dummy_fn(&module, Some(name.clone()));
     let mut tr = new_tr(idx, reg, &cur);
-    tr.generics = st.generics.type_params().map(|p| p.ident.to_string()).collect();
+    tr.pattern_generics = pattern_generics(&st.generics);
+    tr.generics = st.generics.type_params().map(|p| p.ident.to_string()).filter(|g| !tr.pattern_generics.contains(g)).collect();
     let mut out = String::new();
     writeln!(out, "/-- Rust: `struct {}` ({}) -/", name, path).unwrap();
     let mut gens: String = tr.generics.iter().map(|g| format!(" ({} : Type)", g)).collect();
@@ -109,7 +110,8 @@ fn translate_enum(idx: &Index, reg: &Registry, t: &Target) -> R<String> {
     let module = path.rsplit_once("::").map(|x| x.0).unwrap_or("").to_string();
     let cur = dummy_fn(&module, Some(name.clone()));
     let mut tr = new_tr(idx, reg, &cur);
-    tr.generics = en.generics.type_params().map(|p| p.ident.to_string()).collect();
+    tr.pattern_generics = pattern_generics(&en.generics);
+    tr.generics = en.generics.type_params().map(|p| p.ident.to_string()).filter(|g| !tr.pattern_generics.contains(g)).collect();
     let mut out = String::new();
     writeln!(out, "/-- Rust: `enum {}` ({}) -/", name, path).unwrap();
     let gens: String = tr.generics.iter().map(|g| format!(" ({} : Type)", g)).collect();
@@ -209,6 +211,9 @@ fn translate_fn(idx: &Index, reg: &Registry, t: &Target, texts: &BTreeMap<String
     tr.generics = all_type_params(f);
     tr.const_generics = all_const_params(f);
     tr.pattern_generics = pattern_generics(&f.sig.generics);
+    if let Some(ig) = &f.impl_generics {
+        tr.pattern_generics.extend(pattern_generics(ig));
+    }
     tr.generics.retain(|g| !tr.pattern_generics.contains(g));
     if !tr.pattern_generics.is_empty() {
         // the `const N` of `BytesPattern<N>` only exists for the trait dispatch
